@@ -112,6 +112,55 @@ def opMergeTree (j : Json) : R Json := do
   | .ok e => pure (Json.mkObj [("ok", viewJson e)])
   | .error e => pure (mergeErrJson e)
 
+def natList (j : Json) : R (List Nat) := do (← arr j).mapM fun x => x.getNat?
+
+def itemOf (j : Json) : R Item := do
+  match ← fldStr j "k" with
+  | "ont" =>
+    let v ← match ← fldStr j "v" with
+      | "ok" => pure OntV.ok | "semFail" => pure OntV.semFail
+      | "schemaSemFail" => pure OntV.schemaSemFail | "schemaSemOk" => pure OntV.schemaSemOk
+      | x => throw s!"unknown ontology validity {x}"
+    pure (.ont v (← fldStrs j "types") (← fldStrs j "sources"))
+  | "event" => pure (.event (← fldNat j "idx") (← fldStr j "type") (← fldStr j "source") (← fldBool j "gate"))
+  | "foreign" => pure (.foreign (← fldNat j "idx"))
+  | x => throw s!"unknown item kind {x}"
+
+def callbackJson : Callback → Json
+  | .ontology ts ss => Json.arr #["ont", jStrs ts, jStrs ss]
+  | .handler h i => Json.arr #["h", h, i]
+  | .fallback i => Json.arr #["fb", i]
+  | .foreign i => Json.arr #["f", i]
+
+def perrJson : Option PErr → Json
+  | none => Json.null
+  | some .validation => "EDXMLValidationError"
+  | some .eventValidation => "EDXMLEventValidationError"
+  | some .ontologyValidation => "EDXMLOntologyValidationError"
+
+def opParse (j : Json) : R Json := do
+  let rj ← fld j "reg"
+  let reg : Registry := {
+    typeH := ← (← fldArr rj "typeH").mapM (pairOf str natList)
+    srcH := ← (← fldArr rj "srcH").mapM (pairOf str natList)
+    reMatch := ← (← fldArr rj "matches").mapM (pairOf str str)
+    overridden := ← fldBool rj "overridden"
+    validate := ← fldBool rj "validate" }
+  let chunks ← (← fldArr j "chunks").mapM fun c => do (← arr c).mapM itemOf
+  let rootEnd ← fldBool j "rootEnd"
+  let versionOk ← fldBool j "versionOk"
+  let (s, e) := feedAll reg {} chunks
+  let e := match e with
+    | none => if rootEnd && !versionOk then some PErr.validation else none
+    | some x => some x
+  pure (Json.mkObj [
+    ("log", Json.arr (s.log.map callbackJson).toArray),
+    ("err", perrJson e),
+    ("nEvents", s.nEvents),
+    ("typeCount", Json.arr (s.typeCount.map fun tc => jPair tc.1 tc.2).toArray),
+    ("sizes", Json.arr (s.sizes.map fun (p : Nat × Nat) => jPair (p.1 : Json) (p.2 : Json)).toArray),
+    ("children", s.children.length)])
+
 def dispatch (j : Json) : R Json := do
   match ← fldStr j "op" with
   | "ping" => pure (Json.mkObj [("pong", true)])
@@ -119,6 +168,7 @@ def dispatch (j : Json) : R Json := do
   | "memo" => opMemo j
   | "merge" => opMerge j
   | "mergetree" => opMergeTree j
+  | "parse" => opParse j
   | x => throw s!"unknown op {x}"
 
 partial def loop (inp out : IO.FS.Stream) : IO Unit := do
